@@ -770,6 +770,32 @@ func (e *keeperEnv) replay(k *kind, what string, claims []claim, order []int, sh
 		}
 		return false
 	})
+	// (7) every attestation of the nonce sits under the key of the claim it RECORDS — which is where ExportGenesis → InitGenesis
+	// (SetAttestation(claim.GetEventNonce(), claim.ClaimHash(), att) on the recorded claim) would file it again; the one
+	// exception is an attestation this scenario put there under the earlier release's hash, which must still hold exactly the
+	// votes it had
+	{
+		prefix := ct.GetAttestationKey(nonce, nil)
+		for _, kv := range hx.RawPrefix(ctx, e.s.App.GetKey(e.chain), prefix) {
+			var att ct.Attestation
+			e.s.App.AppCodec().MustUnmarshal(kv[1], &att)
+			rec, err := ct.UnpackAttestationClaim(e.s.App.AppCodec(), &att)
+			if err != nil {
+				continue
+			}
+			keyHash := hex.EncodeToString(kv[0][len(prefix):])
+			if keyHash == hashOf(rec) && rec.GetEventNonce() == nonce {
+				out.Count("keeper:filed-under-recorded-claim")
+				continue
+			}
+			if pf := e.inflight; pf != nil && keyHash == hex.EncodeToString(legacyHash(rec)) && !att.Observed && len(att.Votes) == len(pf.voters) {
+				out.Count("keeper:stale-attestation-untouched")
+				continue
+			}
+			rp := append(append([]string{}, replay...), fmt.Sprintf("# attestation under hash %s records %+v (ClaimHash %s), votes %v, observed %v", keyHash, rec, hashOf(rec), att.Votes, att.Observed))
+			r.violate(fmt.Sprintf("real keeper: an attestation is not filed under the hash of the claim it records in %s: %s", k.name, what), rp)
+		}
+	}
 	// deferred execution: ExecuteClaim runs the stored copy (whether the real handler succeeds is an input of the model)
 	ran := 0
 	for round := 0; round < 2; round++ {
